@@ -147,6 +147,26 @@ func boundsObligations(w *World, p *Property) boundsResult {
 						}
 						n++
 						ok, reason := dischargeBounds(w, c, root, pth, e)
+						if !ok {
+							// with what every caller is known to pass for the parameters
+							if pf := w.paramFacts(root); len(pf) > 0 {
+								e2 := *e
+								e2.Args = nil
+								for _, a := range e.Args {
+									e2.Args = append(e2.Args, rewrite(a, func(x *T) *T {
+										if x.Op == "p" {
+											if f := pf[x.S]; f != nil {
+												return f
+											}
+										}
+										return nil
+									}))
+								}
+								if ok2, reason2 := dischargeBounds(w, c, root, pth, &e2); ok2 {
+									ok, reason = true, reason2+" (parameters as every call site passes them)"
+								}
+							}
+						}
 						if ok {
 							why = reason
 							if strings.HasPrefix(reason, "PRECONDITION") {
@@ -529,18 +549,7 @@ func dischargeBounds(w *World, c *simCtx, fn *ssa.Function, p *Path, e *Event) (
 	if q := resolveQueue(w, c); q.err == "" {
 		if _, ok := selOf(base, q.buf); ok {
 			ix := stripConv(idx)
-			cur := false
-			for _, cf := range q.cursors {
-				if _, ok := selOf(ix, cf); ok {
-					cur = true
-				}
-			}
-			if ix.Op == "rem" {
-				if q.isCap(ix.A[1]) {
-					cur = true
-				}
-			}
-			if cur {
+			if q.inRing(w, fn, p, ix, nil) {
 				return true, "queue cursor / _ % size, buffer is make(_, size) (MOD.queue)"
 			}
 			return false, "queue buffer indexed by " + ix.Show()
@@ -700,6 +709,55 @@ func loopVarInfo(w *World, fn *ssa.Function, p *Path, lv *T) (init *T, step int6
 		step, have = l.Const, true
 	}
 	return init, step, have
+}
+
+// loopVarSteps returns the entry value of a loop variable on path p and, for
+// every back-edge path of its loop, the value it takes next.
+type lvStep struct {
+	p *Path
+	v *T
+}
+
+func loopVarSteps(w *World, fn *ssa.Function, p *Path, lv *T) (init *T, steps []lvStep, ok bool) {
+	if lv.Op != "loopvar" || int(lv.C) >= len(fn.Blocks) {
+		return nil, nil, false
+	}
+	phiIdx, n := -1, 0
+	for _, in := range fn.Blocks[int(lv.C)].Instrs {
+		if ph, isPhi := in.(*ssa.Phi); isPhi {
+			if ph.Comment == lv.S {
+				phiIdx = n
+			}
+			n++
+		}
+	}
+	if phiIdx < 0 {
+		return nil, nil, false
+	}
+	for i := range p.Events {
+		e := &p.Events[i]
+		if e.Kind == "enterloop" && e.Res.C == lv.C && phiIdx < len(e.Args) {
+			init = e.Args[phiIdx]
+		}
+	}
+	paths, err := w.Paths(fn)
+	if init == nil || err != nil {
+		return nil, nil, false
+	}
+	for _, q := range paths {
+		if q.End != "backedge" {
+			continue
+		}
+		be := q.Events[len(q.Events)-1]
+		if be.Res.C != lv.C {
+			continue
+		}
+		if phiIdx >= len(be.Args) {
+			return nil, nil, false
+		}
+		steps = append(steps, lvStep{q, be.Args[phiIdx]})
+	}
+	return init, steps, true
 }
 
 // indexWithin: is 0 <= idx < B established on path p of fn, where B is any
